@@ -483,5 +483,13 @@ func readLines(file string) ([]string, error) {
 	return out, nil
 }
 
-func mkRoot(c runCfg) (string, error) { return os.MkdirTemp(c.Out, "mod") }
+// mkRoot: a FIXED directory name under the run directory of the property, so that the Go build cache is reused between
+// runs (a random name made every run a cache miss and the cache grow without bound)
+func mkRoot(c runCfg) (string, error) {
+	root := filepath.Join(c.Out, "mod")
+	if err := os.RemoveAll(root); err != nil {
+		return "", err
+	}
+	return root, os.MkdirAll(root, 0o755)
+}
 func rmRoot(root string)              { os.RemoveAll(root) }
